@@ -214,7 +214,7 @@ func c05Run(c *mon.Ctx, csAny any) {
 	if cs.Move != nil {
 		c.Count("history-cases")
 
-		a = cs.Move.From.Build()
+		a = cs.Move.Start()
 		// compare the old value (fills whatever the comparison memoises), then move
 		ref := cs.B.Build()
 		_, _, _ = a.Equal(ref), ref.Equal(a), a.IsIdentity()
